@@ -211,6 +211,22 @@ type State struct {
 	via    string
 	key    string
 	inner  *ast.ReturnStmt // innermost return of an inlined tail call (not part of the identity)
+	eng    *Engine
+	dead   bool // declared infeasible by a hook: dropped at the next block boundary / exit
+}
+
+// Infeasible lets a hook drop this path: the state (and everything derived from it) is discarded at the next block
+// boundary or exit. For paths a rule can prove impossible from its own knowledge.
+func (s *State) Infeasible() { s.dead = true }
+
+// Learn records a fact together with the expressions it depends on, so that the engine forgets it when one of the
+// variables / fields mentioned is assigned (hooks use it instead of Set for facts about program state).
+func (s *State) Learn(key string, v Val, exprs ...ast.Expr) {
+	if s.eng != nil {
+		s.eng.learn(s, key, v, exprs...)
+		return
+	}
+	s.Set(key, v)
 }
 
 // Get returns the value of a fact.
@@ -243,7 +259,7 @@ func (s *State) Facts() []string {
 func (s *State) Clone() *State { return s.clone("") }
 
 func (s *State) clone(via string) *State {
-	n := &State{facts: make(map[string]Val, len(s.facts)+2), defers: s.defers, parent: s, via: via, inner: s.inner}
+	n := &State{facts: make(map[string]Val, len(s.facts)+2), defers: s.defers, parent: s, via: via, inner: s.inner, eng: s.eng, dead: s.dead}
 	for k, v := range s.facts {
 		n.facts[k] = v
 	}
@@ -353,6 +369,11 @@ type Config struct {
 	// InlineClosures additionally interprets in place the calls of a closure held in a local that is assigned
 	// exactly once (`reject := func(..) {..}; reject(..)`); needs Inline to be set (it may always answer nil).
 	InlineClosures bool
+	// Init is called once with the initial state (facts a rule knows to hold on entry).
+	Init func(st *State)
+	// NoReturn reports calls that never return (the project's own fatal helpers); os.Exit, log.Fatal*, panic and
+	// runtime.Goexit are known.
+	NoReturn func(call *ast.CallExpr, callee types.Object) bool
 	// OnInline is called when an inlined call is entered (after the parameters were bound) and when it is left
 	// (after the facts about aliased parameters were copied back, before the results are assigned): rules that
 	// carry their own event facts per variable move them across the call here.
@@ -409,6 +430,7 @@ type Engine struct {
 	skipCall    map[*ast.CallExpr]bool
 	skipAll     bool // do not fire call events (the expression was evaluated already)
 	litFuncs    map[*ast.FuncLit]*types.Func
+	boundLits   map[types.Object]*ast.FuncLit // func parameters of inlined helpers bound to literals
 }
 
 func (e *Engine) curType() *ast.FuncType {
@@ -464,7 +486,7 @@ func Analyze(fn *Func, c Config) (*Result, error) {
 		cfgs: map[*ast.BlockStmt]*cfg.CFG{}, indexed: map[*ast.BlockStmt]bool{}, skipCall: map[*ast.CallExpr]bool{}}
 	e.res = &Result{Fn: fn, At: map[ast.Node][]*State{}}
 	e.indexConds(fn.Body)
-	init := &State{facts: map[string]Val{}}
+	init := &State{facts: map[string]Val{}, eng: e}
 	if fn.Type != nil && fn.Type.Results != nil {
 		for _, fld := range fn.Type.Results.List {
 			for _, name := range fld.Names {
@@ -474,7 +496,13 @@ func Analyze(fn *Func, c Config) (*Result, error) {
 			}
 		}
 	}
+	if c.Init != nil {
+		c.Init(init)
+	}
 	e.run(fn.Body, []*State{init}, func(st *State, kind ExitKind, ret *ast.ReturnStmt, at ast.Node) {
+		if st.dead {
+			return
+		}
 		e.res.Exits = append(e.res.Exits, &Exit{Kind: kind, Return: ret, At: at, State: st, Inner: st.inner})
 	})
 	if e.err != nil {
@@ -504,6 +532,9 @@ func (e *Engine) indexConds(body ast.Node) {
 }
 
 func (e *Engine) mayReturn(call *ast.CallExpr) bool {
+	if e.cfg.NoReturn != nil && e.cfg.NoReturn(call, e.Fn.Callee(call)) {
+		return false
+	}
 	switch o := e.Fn.Callee(call).(type) {
 	case *types.Builtin:
 		return o.Name() != "panic"
@@ -549,6 +580,9 @@ func (e *Engine) run(body *ast.BlockStmt, init []*State, out exitFn) {
 	seen := map[int32]map[string]bool{}
 	var work []workItem
 	push := func(b *cfg.Block, st *State) {
+		if st.dead {
+			return
+		}
 		m := seen[b.Index]
 		if m == nil {
 			m = map[string]bool{}
@@ -1028,6 +1062,7 @@ func (e *Engine) assignOne(st *State, l, r ast.Expr, exit exitFn) []*State {
 	}
 	e.killExpr(st, l)
 	lr := f.Render(l)
+	e.learnLiteralFields(st, l, r)
 	switch {
 	case tv.Value != nil:
 		if isBool {
@@ -1549,4 +1584,70 @@ func (e *Engine) assumeInlined(st *State, x ast.Expr, want bool, exit exitFn) ([
 		return out, true
 	}
 	return nil, false
+}
+
+// learnLiteralFields: `x := T{f: true}` / `x := &T{..}` teaches the constant boolean and nil fields of the literal
+// and the zero values of the boolean / nil-able fields it omits (x.f is keyed like any other path).
+func (e *Engine) learnLiteralFields(st *State, l, r ast.Expr) {
+	id, ok := ast.Unparen(l).(*ast.Ident)
+	if !ok || id.Name == "_" {
+		return
+	}
+	r = ast.Unparen(r)
+	if u, ok := r.(*ast.UnaryExpr); ok && u.Op == token.AND {
+		r = ast.Unparen(u.X)
+	}
+	cl, ok := r.(*ast.CompositeLit)
+	if !ok {
+		return
+	}
+	tv, ok := e.Fn.Info.Types[cl]
+	if !ok || tv.Type == nil {
+		return
+	}
+	stt, ok := tv.Type.Underlying().(*types.Struct)
+	if !ok {
+		return
+	}
+	base := e.Fn.Render(id)
+	given := map[string]ast.Expr{}
+	keyed := true
+	for _, el := range cl.Elts {
+		kv, ok := el.(*ast.KeyValueExpr)
+		if !ok {
+			keyed = false
+			break
+		}
+		if k, ok := kv.Key.(*ast.Ident); ok {
+			given[k.Name] = kv.Value
+		}
+	}
+	if !keyed {
+		return
+	}
+	for i := 0; i < stt.NumFields(); i++ {
+		fld := stt.Field(i)
+		if fld.Embedded() {
+			continue
+		}
+		path := base + "." + fld.Name()
+		val, has := given[fld.Name()]
+		switch u := fld.Type().Underlying().(type) {
+		case *types.Basic:
+			if u.Info()&types.IsBoolean == 0 {
+				continue
+			}
+			if !has {
+				e.learn(st, "v:"+path, False, id)
+			} else if c, ok := e.Fn.constOf(val); ok {
+				e.learn(st, "v:"+path, boolVal(c == "true"), id)
+			}
+		case *types.Pointer, *types.Interface, *types.Map, *types.Slice, *types.Chan, *types.Signature:
+			if !has || e.Fn.isNilExpr(val) {
+				e.learn(st, "nil:"+path, True, id)
+			} else if isNonNilExpr(ast.Unparen(val)) {
+				e.learn(st, "nil:"+path, False, id)
+			}
+		}
+	}
 }
